@@ -30,6 +30,8 @@ func (o opT) String() string {
 		return fmt.Sprintf("AddRoot(spf=%d,ev%d@frame%d)", o.Spf, o.Ev, o.F)
 	case "get":
 		return fmt.Sprintf("GetFrameRoots(%d)", o.F)
+	case "decide":
+		return fmt.Sprintf("SetLastDecidedFrame(%d)", o.F)
 	}
 	return o.Kind
 }
@@ -124,6 +126,8 @@ func main() {
 		ops = append(ops, opT{Kind: "get", F: f})
 	}
 	ops = append(ops, opT{Kind: "reset"}, opT{Kind: "restart"}, opT{Kind: "reset-same-epoch"})
+	// the election moves on: roots of already decided frames are still registered (late, lagging validators)
+	ops = append(ops, opT{Kind: "decide", F: 1}, opT{Kind: "decide", F: 2})
 	c.Set("alphabet_ops", len(ops))
 	type cfgT struct {
 		num    uint
@@ -204,6 +208,8 @@ func main() {
 				if !check(o.F, i+1, "query") {
 					return false
 				}
+			case "decide":
+				s.store.SetLastDecidedState(&abft.LastDecidedState{LastDecidedFrame: idx.Frame(o.F)})
 			case "reset":
 				epoch++
 				if err := s.ord.Reset(epoch, s.vals); err != nil {
